@@ -161,7 +161,7 @@ def gen_cell(cell, rng, rep):
             it = rng.randrange(1, 256)
         elif kind not in ('irq', 'fiq', 'reset') and rng.random() < 0.4:
             it = 0xE0 | rng.choice([0x8, 0x4, 0xC, 0x2, 0x6, 0xA, 0xE, 0x1, 0xF])     # AL block: the instruction executes, IT state is live
-    cpsr = G.random_cpsr(rng, cfg, mode=cell['mode'], thumb=thumb, it=it)
+    cpsr = G.random_cpsr(rng, cfg, mode=cell['mode'], thumb=thumb, it=it, e=None)
     if kind in ('irq', 'fiq'):
         cpsr &= ~(1 << (7 if kind == 'irq' else 6))      # unmasked so the line is delivered at the next boundary
     pcs = [G.CODE + 4 * rng.randrange(0, 256), G.LOW + 0x40 + 4 * rng.randrange(0, 64), G.HIGH + 0x100 + 4 * rng.randrange(64)]
@@ -304,8 +304,6 @@ class Injector:
         elif kind == 'reset':
             self.expect = (t, 'reset')
         else:
-            if r.cpsr.e:
-                return                      # fetch would be byte-reversed (C13 defect, see DESIGN): no expectation
             thumb = (r.cpsr.value >> 5) & 1
             it = r.cpsr.it
             if thumb and it & 0xF and ((it >> 4) != 0xE or (kind == 'smc' and it & 0xF != 8)):
